@@ -78,6 +78,14 @@ class JSONStore(MutableMapping):
             )
             self.store = {}
 
+        if not isinstance(self.store, dict):
+            self.logger.warning(
+                "JSONStore {} does not contain a JSON object".format(
+                    self.json_store
+                )
+            )
+            self.store = {}
+
         self.update(*args, **kwargs)  # use the free update to set keys
 
     def __str__(self):
